@@ -13,6 +13,7 @@ import Anko.Props.Tie.StmtFlow
 import Anko.Props.Tie.RunFlow
 import Anko.Props.Tie.BindFlow
 import Anko.Props.Tie.CallFlow
+import Anko.Props.Tie.Inventory
 
 set_option linter.unusedSectionVars false
 set_option linter.unusedSimpArgs false
@@ -261,5 +262,14 @@ theorem source_tie_RunFlow : Gen.RunFlow.leaves = Tables.runFlow := Tie.runFlow
 theorem source_tie_BindFlow : Gen.BindFlow.leaves = Tables.bindFlow := Tie.bindFlow
 /-- the call machinery (vmExprFunction.go) -/
 theorem source_tie_CallFlow : Gen.CallFlow.leaves = Tables.callFlow := Tie.callFlow
+
+
+/-! ### Declaration inventory
+
+Nothing was added to the packages this property is anchored in: their top-level declarations (functions, methods, variables, constants, types with
+the fields of struct types), regenerated from /repo on this run, are the audited ones (Props/Tie/Inventory). A helper, a package-level table or a
+file added there - code no flow table can pin - breaks the tie by name and makes this property's check search for a failing input. -/
+/-- vm/ -/
+theorem declarations_of_Vm_are_the_audited_ones : Tie.ofPkg "vm" Gen.Inventory.decls = Tie.ofPkg "vm" Tables.inventory := Tie.inventoryVm
 
 end Anko.C09
